@@ -333,6 +333,21 @@ func buildT(in tInput) snippet.Snippet {
 		}
 		args = append(args, m)
 		return snippet.T(in.Format, args...)
+	case 3:
+		// the bindings are what was bound WHEN T was called: the caller's map is changed and emptied afterwards
+		m := snippet.Args{}
+		for n, a := range in.Env {
+			m[n] = a.Build()
+		}
+		sn := snippet.T(in.Format, m)
+		for n := range m {
+			m[n] = snippet.Block("CHANGED-AFTER-T")
+		}
+		for n := range m {
+			delete(m, n)
+			break
+		}
+		return sn
 	default:
 		m := snippet.Args{}
 		for n, a := range in.Env {
@@ -456,7 +471,7 @@ func (p *prop) runTExhaustive(c core.Case, res *core.Result) {
 		names := namesIn(f)
 		nontriv := strings.ContainsAny(f, "@%")
 		for ei, env := range envsFor(names, i) {
-			in := tInput{Format: f, Env: env, Style: int((i + int64(ei)) % 3)}
+			in := tInput{Format: f, Env: env, Style: int((i + int64(ei)) % 4)}
 			res.Evals++
 			if nontriv {
 				res.DistinctN++
@@ -740,7 +755,7 @@ func (p *prop) runTRandom(c core.Case, res *core.Result) {
 			}
 			env[n] = ArgSpec{argKinds[r.Intn(len(argKinds))]}
 		}
-		in := tInput{Format: f, Env: env, Style: r.Intn(3)}
+		in := tInput{Format: f, Env: env, Style: r.Intn(4)}
 		res.Evals++
 		if strings.ContainsAny(f, "@%") {
 			res.NonTrivial("T|" + f + "|" + envString(env))
